@@ -138,7 +138,16 @@ def call_irving(P1, P2, V1, V2, zero=True, with_profiles=True, rank_dtype=None):
     v2 = persist("smV2", np.array(V2, dtype=np.int64), IntegerValuationProfile.of)
     rule = persist_rule(("irving", zero), lambda: Irving(zero_indexed=zero))
     if with_profiles:
-        out = rule.scf(v1, v2, persist("smP1", np.array(P1, dtype=rank_dtype), StrictCompleteProfile.of), persist("smP2", np.array(P2, dtype=rank_dtype), StrictCompleteProfile.of))
+        p1o = persist("smP1", np.array(P1, dtype=rank_dtype), StrictCompleteProfile.of)
+        p2o = persist("smP2", np.array(P2, dtype=rank_dtype), StrictCompleteProfile.of)
+        import hashlib
+        h = int(hashlib.sha256(repr((P1, P2)).encode()).hexdigest()[:2], 16) % 5
+        if h == 0:
+            # profiles obtained by INDEXING a profile (all rows, in order): still profiles of the same class
+            p1o, p2o = p1o[np.arange(len(P1))], p2o[list(range(len(P2)))]
+        elif h == 1:
+            p1o, p2o = p1o[:, :], p2o[::1]
+        out = rule.scf(v1, v2, p1o, p2o)
     else:
         out = rule.scf(v1, v2)
     return [[int(a), int(b)] for a, b in out]
